@@ -12,6 +12,7 @@ pub mod varint;
 pub mod cont_case;
 pub mod prim_case;
 pub mod total_case;
+pub mod compress_case;
 pub mod alloc;
 
 pub use model::{mv, ModelType, Opt};
